@@ -1,19 +1,20 @@
 #!/usr/bin/env python3
 """Print the prompt handed to a fresh mutation sub-agent for one property.
 The agent gets only the property record and a scratch worktree; nothing from /verif.
-usage: mk_mutant_prompt.py <ID> [variant-hint]"""
+usage: mk_mutant_prompt.py <ID> [dir-suffix] [hint text]"""
 import json, os, sys
 
 HERE = os.path.dirname(os.path.dirname(os.path.abspath(__file__)))
 pid = sys.argv[1]
-hint = sys.argv[2] if len(sys.argv) > 2 else ""
+suffix = sys.argv[2] if len(sys.argv) > 2 else ""
+hint = sys.argv[3] if len(sys.argv) > 3 else ""
 prop = None
 for l in open(os.path.join(HERE, "properties.jsonl")):
     p = json.loads(l)
     if p["id"] == pid:
         prop = p
 assert prop, pid
-W = f"/tmp/mut_{pid}{hint and '_' + hint}"
+W = f"/tmp/mut_{pid}{suffix}"
 O = W + "_out"
 T = os.environ.get("MUT_TARGET", W + "/target")
 print(f"""You are helping to evaluate a verification effort for rust-libp2p by playing the role of a developer who
